@@ -14,7 +14,7 @@ META = {
             "skip opened documents. One obligation per site. D2 also: no iteration of the change loop skips the splice; D4 also: Change::apply sets every recorded text, in order. D6 every handler that modifies the store applies the pending change before it returns, and the roots are re-partitioned before the change is taken out; D8 a FileId is the key of its slab slot; D9 the last recorded text of a file wins (no keep-first entry API, no thinning of the list); D10 writer and readers of LineMap's table use one coordinate system. D14 = C14/U1, U3 (the width table and the two scans over it). D15 = C14/U10 (in crate glas only the line map and the reviewed makers produce a byte offset). D16 = C14/U8 (normalize changes line ends and nothing else; a lone CR is a line end; the disk reader drops a byte order mark).",
     "explanation": "Decides the lock-step clauses that keep the server's text and the table used to interpret the client's positions in "
                    "sync, and that the client's text is the one analysed. The position arithmetic itself (UTF-16 columns to byte "
-                   "offsets) is a computation on runtime text and is not decided here (see C14).",
+                   "offsets) is a computation on runtime text and is not decided here (see C14). D18 = C14 U12 (engine U).",
     "not_decided": "equality with the editor's text for all edit histories (offset arithmetic over runtime strings; D10 decides only that writer and readers of the line table use one coordinate system).",
     "trusted_base": ["rustc MIR", "String::retain removes exactly the characters for which the predicate is false"],
     "assumptions": [],
